@@ -33,6 +33,8 @@ impl New for App {
 
 impl Application for App {
     fn execute(&self, request: &Request, connection: &ConnectionInfo) -> Result<Response, String> {
+        #[cfg(rws_verif)]
+        crate::verif_hooks::point("app.execute.enter");
         let header_list = Header::get_header_list(&request);
 
         let mut response: Response = Response::get_response(
@@ -100,6 +102,8 @@ impl Application for App {
 
 impl App {
     pub fn handle_request(request: Request) -> (Response, Request) {
+        #[cfg(rws_verif)]
+        crate::verif_hooks::point("app.handle_request.enter");
         let header_list = Header::get_header_list(&request);
 
         let mut response: Response = Response::get_response(
